@@ -3,7 +3,7 @@
 import json, os, re, glob
 HERE = os.path.dirname(os.path.dirname(os.path.abspath(__file__)))
 rows = []
-n_first = n_str = n_cross = 0
+n_first = n_str = n_cross = n_undet = 0
 for d in sorted(glob.glob(os.path.join(HERE, "seeded", "C*"))):
     m = json.load(open(os.path.join(d, "meta.json")))
     det = m["detection"]
@@ -12,6 +12,10 @@ for d in sorted(glob.glob(os.path.join(HERE, "seeded", "C*"))):
     cb = [x.split()[1] for x in cb]
     st = det["status"]
     first = st.startswith("caught")
+    if st.startswith("undetected"):
+        n_undet += 1
+        rows.append(f"| `{os.path.basename(d)}` | {m['change'].replace('|', '/')} | none | UNDETECTED | {det.get('note', '').replace('|', '/')} |")
+        continue
     own = m["property"] in cb
     if first:
         n_first += 1
@@ -24,7 +28,7 @@ for d in sorted(glob.glob(os.path.join(HERE, "seeded", "C*"))):
     rows.append(f"| `{os.path.basename(d)}` | {m['change'].replace('|', '/')} | {', '.join(cb)} | {how} | {note.replace('|', '/')} |")
 head = (f"{len(rows)} changes; {n_first} caught by the checks as they stood when the change arrived, {n_str} only after "
         f"strengthening ({n_cross} of these by the check of another property than the one the change was written against); "
-        f"0 undetected.\n\n| id | change | caught by (quick tier) | when | what was added |\n|----|--------|-----------|------|----------------|\n")
+        f"{n_undet} undetected.\n\n| id | change | caught by (quick tier) | when | what was added |\n|----|--------|-----------|------|----------------|\n")
 txt = head + "\n".join(rows) + "\n"
 p = os.path.join(HERE, "DESIGN.md")
 s = open(p).read()
